@@ -1,5 +1,7 @@
 import IdenaModel.Model.ProtoWire
 import IdenaModel.Model.CodecTable
+import IdenaModel.Model.CodecObjects
+import IdenaModel.Model.RecordCodec
 import IdenaModel.Drivers.Util
 /-! Driver for channel C18.
 
@@ -10,7 +12,11 @@ Ops (one per line, space separated; every structured argument is one space-free 
                                             pinned names are compared with the schemas the theorems are stated for
 * `enc <Name> <msg>`                      — `x<bytes of encode> <normal form>`; also checks `decode (encode m) = norm m`
 * `sigeq <Name> <msg> <msg>`              — `same` / `diff`: do the two signed messages have the same encoding
-* `txsig n e t to amount maxFee tips payload`, `votesig r s parent voted off upgrade` — the Lean message builders
+* `txsig n e t to amount maxFee tips payload`, `txfull … signature useRlp`, `votesig r s parent voted off upgrade`,
+  `phdr <16 header fields>`, `ehdr <7 header fields>` — the Lean message builders of `Model/CodecObjects.lean`
+* `rec <Name> <spec> <values>`            — generic flat-record codec (`Model/RecordCodec.lean`): bytes of
+                                            `encode (recToMsg spec values)`; spec `1:u,2:i,3:t,4:b,5:f32,6:o20,7:g`,
+                                            values `n5,z-3,t1,b0a,b…,o-|o…,g-|g12`
 * `big`, `unbig`, `i64`, `uni64`, `fix`   — value conversions
 * `field <Type> <Field> enc=.. dec=.. sig=.. signed=0|1 allow=.. unsigned=..` — one row of the regenerated table: `ok`/`FAIL`
 * `table-end <n>`                         — `TableOK <n>` iff all `n` rows seen so far satisfy the obligation
@@ -135,22 +141,8 @@ partial def showSchema (s : Schema) : String :=
   "{" ++ ",".intercalate (s.map fun (f, rk) => toString f ++ ":" ++ showKind rk) ++ "}"
 end
 
-/-- the schemas the Lean theorems `tx_sig_binds` / `vote_sig_binds` are stated for (same literals as `Props/C18.lean`,
-which cannot be imported here because drivers import only Model files) -/
-def pinned : List (String × Schema) :=
-  [("ProtoTransaction.Data",
-     [(1, false, .int), (2, false, .int), (3, false, .int), (4, false, .bytes), (5, false, .bytes),
-      (6, false, .bytes), (7, false, .bytes), (8, false, .bytes)]),
-   ("ProtoVote.Data",
-     [(1, false, .int), (2, false, .int), (3, false, .bytes), (4, false, .bytes), (5, false, .int), (6, false, .int)])]
-
-def txDataMsg (nonce epoch type : Nat) (to : Option Bytes) (amount maxFee tips : Option Int) (payload : Bytes) : Msg :=
-  [(1, .int nonce), (2, .int epoch), (3, .int type), (4, .bytes (optEnc to)),
-   (5, .bytes (bigEnc amount)), (6, .bytes (bigEnc maxFee)), (7, .bytes (bigEnc tips)), (8, .bytes payload)]
-
-def voteDataMsg (round step : Nat) (parent voted : Bytes) (off : Bool) (upgrade : Nat) : Msg :=
-  [(1, .int round), (2, .int step), (3, .bytes parent), (4, .bytes voted),
-   (5, .int (if off then 1 else 0)), (6, .int upgrade)]
+/-- the schemas the theorems are stated for (`Model/CodecObjects.lean`) -/
+def pinned : List (String × Schema) := pinnedSchemas
 
 structure St where
   schemas : List (String × Schema) := []
@@ -185,6 +177,67 @@ def parseOptStr (key s : String) : Option (Option String) :=
     if v = "-" then some none else some (some v)
   else none
 
+def parseConv (s : String) : Option Conv :=
+  match s.toList with
+  | ['u'] => some .uint
+  | ['i'] => some .int64
+  | ['t'] => some .bool
+  | ['b'] => some .bytes
+  | ['g'] => some .big
+  | 'f' :: r => match parseNat r with | some (n, []) => some (.fixed n) | _ => none
+  | 'o' :: r => match parseNat r with | some (n, []) => some (.optFixed n) | _ => none
+  | _ => none
+
+/-- `1:u,2:i,4:f32` -/
+def parseSpec (s : String) : Option Spec :=
+  (s.splitOn ",").foldr (fun item acc =>
+    match acc, item.splitOn ":" with
+    | some l, [f, c] => match parseNatTok f, parseConv c with
+      | some f, some c => some ((f, c) :: l)
+      | _, _ => none
+    | _, _ => none) (some [])
+
+def parseGoVal (s : String) : Option GoVal :=
+  match s.toList with
+  | 'n' :: r => match parseNat r with | some (n, []) => some (.nat n) | _ => none
+  | 'z' :: r => (parseInt (String.ofList r)).map .int
+  | ['t', '0'] => some (.bool false)
+  | ['t', '1'] => some (.bool true)
+  | 'b' :: r => match parseHexAux r [] with | some (b, []) => some (.bytes b) | _ => none
+  | ['o', '-'] => some (.optBytes none)
+  | 'o' :: r => match parseHexAux r [] with | some (b, []) => some (.optBytes (some b)) | _ => none
+  | ['g', '-'] => some (.optInt none)
+  | 'g' :: r => (parseInt (String.ofList r)).map fun z => .optInt (some z)
+  | _ => none
+
+def parseGoVals (s : String) : Option (List GoVal) :=
+  (s.splitOn ",").foldr (fun item acc =>
+    match acc, parseGoVal item with
+    | some l, some v => some (v :: l)
+    | _, _ => none) (some [])
+
+/-- every field of the record's schema is a field of the registered message schema, same kind, singular -/
+def subSchema (small big : Schema) : Bool :=
+  small.all fun (f, rep, k) =>
+    match big.lookup f with
+    | some rk => showKind rk == showKind (rep, k)
+    | none => false
+
+/-- `rec`: the generic record codec; answer = bytes (`x…`), `RT-FAIL` appended if the proven round trip does not hold
+on this value (can only happen outside the WF domain) -/
+def recAnswer (registered : Schema) (spec : Spec) (vals : List GoVal) : String :=
+  if !specOK spec then "bad-spec" else
+  let s := recSchema spec
+  if !subSchema s registered then "SCHEMA-MISMATCH " ++ showSchema s else
+  match recToMsg spec vals with
+  | none => "bad-rec"
+  | some m =>
+    let bs := encode s m
+    let rt := match decode 1 s bs with
+      | some m' => decide ((recFromMsg spec m').map GoVal.sem = vals.map GoVal.sem) && encode registered m == bs
+      | none => false
+    "x" ++ hexOf bs ++ (if rt then "" else " RT-FAIL")
+
 def encAnswer (s : Schema) (m : Msg) : String :=
   if !wfMsg s m then "not-wf" else
   let bs := encode s m
@@ -209,6 +262,10 @@ def step (st : St) (line : String) : St × String :=
     match st.schemas.lookup name, parseMsgTok tok with
     | some s, some m => (st, encAnswer s m)
     | _, _ => (st, "bad-op")
+  | ["rec", name, specTok, valsTok] =>
+    match st.schemas.lookup name, parseSpec specTok, parseGoVals valsTok with
+    | some s, some spec, some vals => (st, recAnswer s spec vals)
+    | _, _, _ => (st, "bad-op")
   | ["sigeq", name, t1, t2] =>
     match st.schemas.lookup name, parseMsgTok t1, parseMsgTok t2 with
     | some s, some m1, some m2 =>
@@ -219,17 +276,37 @@ def step (st : St) (line : String) : St × String :=
     match parseNatTok n, parseNatTok e, parseNatTok t, parseOptBytes to, parseOptInt am, parseOptInt mf,
           parseOptInt tp, parseOptBytes pl with
     | some n, some e, some t, some to, some am, some mf, some tp, some pl =>
-      match pinned.lookup "ProtoTransaction.Data" with
-      | some s => (st, "x" ++ hexOf (encode s (txDataMsg n e t to am mf tp (pl.getD []))))
-      | none => (st, "bad-op")
+      (st, "x" ++ hexOf (encode txDataSchema (txDataMsg ⟨n, e, t, to, am, mf, tp, pl.getD []⟩)))
     | _, _, _, _, _, _, _, _ => (st, "bad-op")
+  | ["txfull", n, e, t, to, am, mf, tp, pl, sg, rlp] =>
+    match parseNatTok n, parseNatTok e, parseNatTok t, parseOptBytes to, parseOptInt am, parseOptInt mf,
+          parseOptInt tp, parseOptBytes pl, parseOptBytes sg, parseNatTok rlp with
+    | some n, some e, some t, some to, some am, some mf, some tp, some pl, some sg, some rlp =>
+      (st, "x" ++ hexOf (encode txSchema (txMsg ⟨⟨n, e, t, to, am, mf, tp, pl.getD []⟩, sg.getD [], rlp != 0⟩)))
+    | _, _, _, _, _, _, _, _, _, _ => (st, "bad-op")
   | ["votesig", r, s, ph, vh, off, up] =>
     match parseNatTok r, parseNatTok s, parseHex ph, parseHex vh, parseNatTok off, parseNatTok up with
     | some r, some s, some ph, some vh, some off, some up =>
-      match pinned.lookup "ProtoVote.Data" with
-      | some sc => (st, "x" ++ hexOf (encode sc (voteDataMsg r s ph vh (off != 0) up)))
-      | none => (st, "bad-op")
+      (st, "x" ++ hexOf (encode voteDataSchema (voteDataMsg ⟨r, s, ph, vh, off != 0, up⟩)))
     | _, _, _, _, _, _ => (st, "bad-op")
+  | ["phdr", a1, a2, a3, a4, a5, a6, a7, a8, a9, a10, a11, a12, a13, a14, a15, a16] =>
+    match parseOptBytes a1, parseNatTok a2, parseInt a3, parseOptBytes a4, parseOptBytes a5, parseOptBytes a6,
+          parseOptBytes a7, parseNatTok a8 with
+    | some ph, some hgt, some tm, some txh, some pk, some root, some idr, some fl =>
+      match parseOptBytes a9, parseOptBytes a10, parseOptBytes a11, parseOptBytes a12, parseOptInt a13,
+            parseNatTok a14, parseOptBytes a15, parseOptBytes a16 with
+      | some ipfs, some off, some bloom, some seed, some fee, some up, some sp, some rc =>
+        (st, "x" ++ hexOf (encode proposedSchema (proposedMsg
+          ⟨ph.getD [], hgt, tm, txh.getD [], pk.getD [], root.getD [], idr.getD [], fl, ipfs.getD [], off,
+           bloom.getD [], seed.getD [], fee, up, sp.getD [], rc.getD []⟩)))
+      | _, _, _, _, _, _, _, _ => (st, "bad-op")
+    | _, _, _, _, _, _, _, _ => (st, "bad-op")
+  | ["ehdr", a1, a2, a3, a4, a5, a6, a7] =>
+    match parseOptBytes a1, parseNatTok a2, parseOptBytes a3, parseOptBytes a4, parseInt a5, parseOptBytes a6,
+          parseNatTok a7 with
+    | some ph, some hgt, some root, some idr, some tm, some seed, some fl =>
+      (st, "x" ++ hexOf (encode emptySchema (emptyMsg ⟨ph.getD [], hgt, root.getD [], idr.getD [], tm, seed.getD [], fl⟩)))
+    | _, _, _, _, _, _, _ => (st, "bad-op")
   | ["big", v] =>
     match parseOptInt v with
     | some x => (st, "x" ++ hexOf (bigEnc x))
